@@ -617,7 +617,12 @@ impl ZExec<$K> {
                 ZForm::V(v) => {
                     // counting version of the arithmetic operations: whatever happens, created - destroyed
                     // must equal what is still owned (n when a vector comes back, 0 after a panic or a reduction)
-                    let mode = op.a % 11;
+                    let mode = op.a % 13;
+                    if mode >= 11 {
+                        // the reference-left forms exist for the leaf element shapes with identities only
+                        self.form = ZForm::V(v);
+                        return false;
+                    }
                     let mk = || <$K as Kind<ZDrop>>::v_from_arr(<$K as Kind<ZDrop>>::arr_from_vec((0..n).map(|_| ZDrop::new()).collect()));
                     let pa = if op.f < 1000 { op.f } else { 0 };
                     ztick_arm(pa);
